@@ -386,6 +386,12 @@ def _shard_short(shard, seed, tier):
 
 def replay(case):
     global _current_chooser
+    if case["kind"] == "live":
+        p = _shard_live(("live",), 0, "quick")
+        for k, det, c in p.violations:
+            if c.get("sel") == case["sel"] and c.get("secure") == case["secure"]:
+                return ("live", det)
+        return None
     if case["kind"] == "wapdir":
         part = core.Partial()
         w = _make_world(case["handlers"])
@@ -422,6 +428,106 @@ def replay(case):
     return bad[0] if bad else None
 
 
+LIVE_DOCS = {
+    "plain.txt": b"plain live file\n", "big.bin": bytes(range(256)) * 50, "empty.txt": b"",
+    "c.txt.gz": None, "page.html.gz": None, "s.sh": ("exec", b"#!/bin/sh\necho SCRIPT-OUT\nhead -c 70000 /dev/zero | tr '\\0' 'z'\n"),
+    "z.zip": None, "m.mbox": None,
+}
+
+
+def _shard_live(shard, seed, tier):
+    """Real sockets, real TLS: every kind of document through each protocol over TLS must arrive exactly as the
+    same document arrives over the plaintext twin of that protocol (the in-process TLS stand-in cannot see what is
+    written to the descriptor behind the TLS layer)."""
+    import socket
+    import ssl
+    import threading
+
+    import pygopherd.server
+
+    from .. import worlds
+
+    part = core.Partial()
+    root = rig.fresh_dir("c04l")
+    docs = dict(LIVE_DOCS)
+    docs["c.txt.gz"] = worlds.gz(b"compressed live document\n" * 300)
+    docs["page.html.gz"] = worlds.gz(worlds.HTML)
+    docs["z.zip"] = worlds.make_zip([("in.txt", b"member\n" * 900), ("sub/c.txt.gz", worlds.gz(b"compressed member\n" * 50))])
+    docs["m.mbox"] = worlds.MBOX
+    rig.build_tree(root, docs)
+    config = rig.make_config(root, handlers="full")
+    rig.init_mime(config)
+    rig.reset_lazies()
+    ctx = ssl.create_default_context(ssl.Purpose.CLIENT_AUTH)
+    ctx.load_cert_chain(os.path.join(rig.REPO, "testdata", "demo.crt"), os.path.join(rig.REPO, "testdata", "demo.key"))
+    server = pygopherd.server.ThreadingTCPServer(config, ("127.0.0.1", 0), pygopherd.server.GopherRequestHandler, context=ctx)
+    server.daemon_threads = True
+    t = threading.Thread(target=server.serve_forever, kwargs={"poll_interval": 0.02}, daemon=True)
+    t.start()
+
+    def ask(data, tls):
+        s = socket.create_connection(server.server_address, timeout=10)
+        try:
+            if tls:
+                c = ssl.SSLContext(ssl.PROTOCOL_TLS_CLIENT)
+                c.check_hostname = False
+                c.verify_mode = ssl.CERT_NONE
+                s = c.wrap_socket(s)
+            s.sendall(data)
+            buf = b""
+            while True:
+                try:
+                    ch = s.recv(65536)
+                except (ssl.SSLError, OSError) as e:
+                    return buf, "%s: %s" % (type(e).__name__, e)
+                if not ch:
+                    return buf, None
+                buf += ch
+        finally:
+            s.close()
+
+    inproc = rig.World(handlers="full", root=root, cachetime=0, tag="c04li")
+    sels = [b"/plain.txt", b"/big.bin", b"/empty.txt", b"/c.txt.gz", b"/page.html.gz", b"/s.sh", b"/z.zip/in.txt", b"/z.zip/sub/c.txt.gz", b"/m.mbox|/MBOX-MESSAGE/1", b"/z.zip", b"/", b"/nope"]
+    try:
+        for sel in sels:
+            for plain, secure in (("gopher", "sgopher"), ("gopherp", "sgopherp"), ("http", "https"), ("spartan", "gemini")):
+                a, ea = ask(*rig.request(plain, sel))
+                b, eb = ask(*rig.request(secure, sel))
+                # ... and the bytes on a real socket are the bytes the in-process connection records
+                # (order of headers and of output produced by child processes included)
+                ri = inproc.serve(*rig.request(plain, sel))
+                rig.reset_lazies()
+                if sel not in (b"/", b"/z.zip") and not ri.internal_error and _undate(ri.out) != _undate(a):  # (menus carry the port number)
+                    part.violation("live-order|%s|%s" % (plain, sel.decode()), "on a real socket %r via %s arrives as %r (%d bytes); the same request in process yields %r (%d bytes)" % (
+                        sel, plain, a[:80], len(a), ri.out[:80], len(ri.out)), {"kind": "live", "sel": sel, "secure": secure})
+                part.evaluations += 2
+                part.transitions += 2
+                part.state("live", sel, secure)
+                if secure == "gemini":
+                    # no plaintext twin: the body must be the Spartan body (status lines differ by design)
+                    a2 = a.split(b"\r\n", 1)[1] if b"\r\n" in a else a
+                    b2 = b.split(b"\r\n", 1)[1] if b"\r\n" in b else b
+                    a2, b2 = re.sub(rb"(?m)^=: ", b"=> ", a2), re.sub(rb"/GEMINI-QUERY", b"", b2)
+                    same = (a[:1] == b"2") == (b[:1] == b"2") and (a[:1] != b"2" or a2 == b2)
+                else:
+                    same = _undate(a) == _undate(b)
+                part.outcome("live", secure, same, eb is None)
+                if ea or eb or not same:
+                    part.violation("live|%s|%s" % (secure, sel.decode()), "real TLS round trip for %r via %s: %s; plaintext twin (%s) answered %r (%d bytes), over TLS %r (%d bytes)" % (
+                        sel, secure, eb or ea or "answers differ", plain, a[:80], len(a), b[:80], len(b)), {"kind": "live", "sel": sel, "secure": secure})
+    finally:
+        server.shutdown()
+        server.server_close()
+        rig.reset_lazies()
+        inproc.destroy()
+        rig.rmtree(root)
+    return part
+
+
+def _undate(out):
+    return re.sub(rb"Last-Modified: [^\r\n]*\r\n", b"", out)
+
+
 def run(ck):
     sizes = SIZES + ([1 << 20] if ck.tier == "thorough" else [])
     items = []
@@ -446,9 +552,10 @@ def run(ck):
         shards.append(("variant", ch))
     ck.pmap(_shard, shards)
     bound = 2 if ck.tier == "quick" else 3
+    ck.pmap(_shard_live, [("live",)])
     ck.pmap(_shard_short, [(p, s, bound) for p in ("gopher", "gopherp", "http", "gemini", "wap") for s in (2 * BLOCK + 7, 3 * BLOCK, BLOCK - 1)])
     ck.rule = ("documents = content classes %s x sizes %s x %d names, fetched through %d protocols under both handler lists; "
-               "plus every pattern of short reads (each read(n) answered n / n-1 / 1 bytes) with <= %d deviations for 3 file sizes x 5 protocols; distinct = (handler list, protocol, expected type, block-aligned, verdict)"
+               "12 kinds of object (plain, block-aligned, empty, compressed, script output, archive members, mailbox message, menus, not-found) through 4 protocol pairs over real sockets, TLS answer == plaintext answer; plus every pattern of short reads (each read(n) answered n / n-1 / 1 bytes) with <= %d deviations for 3 file sizes x 5 protocols; distinct = (handler list, protocol, expected type, block-aligned, verdict)"
                % (CLASSES, sizes, len(NAMES), len(PROTOS), bound))
     ck.bounds = {"documents": len(items), "short_read_deviations": bound}
     ck.assumptions = ["WAP text conversion is compared modulo trailing blanks of each line and the final newline (WML collapses them)",
